@@ -27,10 +27,20 @@ impl Ctx {
         let anns: Vec<(usize, usize)> = req.nth(3).list().iter().map(|p| (p.nth(0).int() as usize, p.nth(1).int() as usize)).collect();
         let sels: Vec<(usize, usize)> = req.nth(4).list().iter().map(|p| (p.nth(0).int() as usize, p.nth(1).int() as usize)).collect();
         let cfg = Config::default().with_milestone_interval(interval).with_shrink_to_fit(shrink);
-        let mut store = AnnotationStore::new(cfg)
-            .with_id("c12")
-            .with_resource(TextResourceBuilder::new().with_id("r").with_text(text.clone()))
-            .unwrap();
+        // variant 1: the resource had another text first (TextResource::with_string twice), then gets this one
+        let replaced = req.list().len() > 5 && req.nth(5).int() == 1;
+        let mut store = if replaced {
+            let other: String = "x\u{e9}\u{1f600}\u{4e2d} ".chars().cycle().take(37).collect();
+            let resource = TextResource::new("r", cfg.clone()).with_string(other).with_string(text.clone());
+            let mut st = AnnotationStore::new(cfg).with_id("c12");
+            st.insert(resource).unwrap();
+            st
+        } else {
+            AnnotationStore::new(cfg)
+                .with_id("c12")
+                .with_resource(TextResourceBuilder::new().with_id("r").with_text(text.clone()))
+                .unwrap()
+        };
         for (b, e) in &anns {
             let _ = guard(|| {
                 store.annotate(
@@ -53,9 +63,14 @@ impl Ctx {
         for b in 0..nb + 3 {
             outs.push(res_sx(guard(|| res.utf8byte_to_charpos(b))));
         }
+        // the model is given every selection once for the ResultTextSelection API and, when the
+        // selection is known to the store (an annotation points at it), once more for the same
+        // questions through ResultItem<TextSelection>
+        let mut model_sels = Vec::new();
         for (sb, se) in &sels {
             let ts = res.textselection(&Offset::simple(*sb, *se)).unwrap();
             let st: String = text.chars().skip(*sb).take(se - sb).collect();
+            model_sels.push(l(vec![a(*sb as i64), a(*se as i64)]));
             for p in 0..(se - sb) + 3 {
                 outs.push(res_sx(guard(|| ts.utf8byte(p))));
             }
@@ -73,8 +88,27 @@ impl Ctx {
                     });
                 }
             }
+            if let Some(item) = ts.as_resultitem() {
+                model_sels.push(l(vec![a(*sb as i64), a(*se as i64)]));
+                for p in 0..(se - sb) + 3 {
+                    outs.push(res_sx(guard(|| item.utf8byte(p))));
+                }
+                for b in 0..st.len() + 3 {
+                    outs.push(res_sx(guard(|| item.utf8byte_to_charpos(b))));
+                }
+                outs.push(guard(|| text_sx(item.text())).unwrap_or_else(|| l(vec![a(-2)])));
+                for x in 0..k {
+                    for y in 0..k {
+                        outs.push(match guard(|| item.text_by_offset(&Offset::simple(x, y)).map(|s| s.to_string())) {
+                            None => l(vec![a(2)]),
+                            Some(Err(_)) => l(vec![a(0)]),
+                            Some(Ok(s)) => l(vec![a(1), text_sx(&s)]),
+                        });
+                    }
+                }
+            }
         }
-        let input = l(vec![req.nth(0).clone(), req.nth(2).clone(), req.nth(3).clone(), req.nth(4).clone()]);
+        let input = l(vec![req.nth(0).clone(), req.nth(2).clone(), req.nth(3).clone(), l(model_sels)]);
         (input, outs, text.len() > n)
     }
 }
@@ -114,6 +148,10 @@ pub fn generate(out: &mut Out, tier: &str, seed: u64) {
                 }
             }
         }
+        // the annotated ranges themselves are probed too (known selections)
+        for x in anns.iter().take(2) {
+            sels.push(x.clone());
+        }
         for interval in intervals.iter() {
             for shrink in [0, 1] {
                 for with_anns in [false, true] {
@@ -123,6 +161,7 @@ pub fn generate(out: &mut Out, tier: &str, seed: u64) {
                         text_sx(&text),
                         if with_anns { l(anns.clone()) } else { l(vec![]) },
                         l(sels.clone()),
+                        a(if (ti + shrink as usize) % 3 == 0 { 1 } else { 0 }),
                     ]);
                     let (i, o, nt) = ctx.exec(&req);
                     out.case(&i, &o, nt, &req);
@@ -133,6 +172,6 @@ pub fn generate(out: &mut Out, tier: &str, seed: u64) {
     }
 }
 
-pub const RULE: &str = "texts of length 0..=12 (thorough 16) over an alphabet with 1-, 2-, 3- and 4-byte characters; every codepoint position 0..=len+2 and every byte offset 0..=bytes+2 on the resource, and the relative conversions + text on sub-selections (3 random ones per text; thorough: a third of all sub-ranges), each under milestone_interval in {0,1,2,3,7,100} x shrink_to_fit on/off x before/after random annotations populated the position index. One evaluation = one conversion. Non-trivial = text contains a multi-byte character; distinct = distinct (interval, text, annotations, selections) inputs.";
+pub const RULE: &str = "texts of length 0..=12 (thorough 16) over an alphabet with 1-, 2-, 3- and 4-byte characters; every codepoint position 0..=len+2 and every byte offset 0..=bytes+2 on the resource, and the relative conversions + text on sub-selections (3 random ones per text; thorough: a third of all sub-ranges), each under milestone_interval in {0,1,2,3,7,100} x shrink_to_fit on/off x before/after random annotations populated the position index; the annotated ranges are probed through ResultItem<TextSelection> as well; in a third of the cases the resource had another (37-codepoint, mixed) text first and got this one by a second with_string(). One evaluation = one conversion. Non-trivial = text contains a multi-byte character; distinct = distinct (interval, text, annotations, selections) inputs.";
 
 pub const EXHAUSTIVE: bool = false;
